@@ -60,9 +60,12 @@ func checkC04(cx *Ctx, r *Report) {
 	cx.checkKeyDescriptorCertificate(r)
 	cx.checkRecoverReports(r, cx.handlerScope())
 	cx.checkNoIndentedEncoding(r)
+	// what is signed and what is sent are two runs of the encoder over the same value: they agree only for encoding/xml's own encoding
+	cx.checkNoCustomMarshallers(r)
 	// storage is asked with the request's context (which carries the issuer / tenant in effect): keys, providers and
 	// users are those of this request
 	cx.checkStorageContext(r)
+	cx.checkStorageIsTheApplications(r)
 	r.Clauses = []string{
 		"sign before send: a Success response leaves loginResponse only after createSignature returned nil; the attribute-query response is signed in a step before the only emit; signed metadata is returned only after signature.Create returned nil; after a signing call nothing is stored into the signed message except the signature itself",
 		"sign table = send table: the bindings with a delivery case in sendBackResponse are exactly those with a signing case in createSignature; a delivery path that does not discriminate the binding (raw XML body when no consumer URL is known) can only carry the enveloped signature, so it must not be reachable for a binding whose signature is detached",
